@@ -173,15 +173,35 @@ def gen_e2e(ctx, nprog, maxops, ntrigger, salt="c18-e2e"):
         k = r.randint(3, 14)
         x = i % 4
         if x == 0:
-            h = H.gen_list_history(r, k, geteq="any") if r.random() < 0.5 else H.gen_keyed_history(r, k, kind="dict", kt=H.STR, geteq="any")
-            out.append((h, "library-none-differs-from-source-none"))
+            if r.random() < 0.5:
+                h = H.gen_list_history(r, k, geteq="any")
+                h.ops.insert(r.randint(0, len(h.ops)), ("geteq", r.choice([50, 99, -1])))
+            else:
+                h = H.gen_keyed_history(r, k, kind="dict", kt=H.STR, geteq="any")
+                h.ops.insert(r.randint(0, k), ("geteq", "no such key"))
+            out.append((h.prepare(), "library-none-differs-from-source-none"))
         elif x == 1:
-            out.append((H.gen_keyed_history(r, k, kind="dict", kt=r.choice([H.INT, H.TUP(H.INT, H.INT)])), "dict-remove-non-string-key"))
+            h = H.gen_keyed_history(r, k, kind="dict", kt=r.choice([H.INT, H.TUP(H.INT, H.INT)]))
+            key = [o[1] for o in h.ops if o[0] == "get"][0]
+            at = r.randint(0, k)
+            h.ops[at:at] = [("update", key, H.gen_value(r, h.vt, small=True)), ("remove", key)]
+            out.append((h.prepare(), "dict-remove-non-string-key"))
         elif x == 2:
-            out.append((H.gen_keyed_history(r, k, kind=r.choice(["dict", "set"]), kt=H.TUP(H.STR, H.STR), strs=COLLIDE,
-                                            allow_collisions=True, remove=False), "key-tostring-collision"))
+            h = H.gen_keyed_history(r, k, kind=r.choice(["dict", "set"]), kt=H.TUP(H.STR, H.STR), strs=COLLIDE,
+                                    allow_collisions=True, remove=False)
+            k1, k2 = ("a, b", "c"), ("a", "b, c")
+            at = r.randint(0, k)
+            if h.kind == "dict":
+                h.ops[at:at] = [("update", k1, H.gen_value(r, h.vt, small=True)), ("update", k2, H.gen_value(r, h.vt, small=True)),
+                                ("get", k1)]
+            else:
+                h.ops[at:at] = [("add", k1), ("add", k2), ("len",)]
+            out.append((h.prepare(), "key-tostring-collision"))
         else:
-            out.append((H.gen_list_history(r, k, et=H.INT, negative_set=True), "list-set-negative-index"))
+            h = H.gen_list_history(r, k, et=H.INT, negative_set=True)
+            at = r.randint(0, len(h.ops))
+            h.ops[at:at] = [("push", 1), ("set", r.choice([-1, -2]), 7), ("len",)]
+            out.append((h.prepare(), "list-set-negative-index"))
     return out
 
 
